@@ -299,3 +299,55 @@ func verifC18Defaults() {
 	vQuiesce()
 	vReach("defaults")
 }
+
+// verifC18Schedules: the ordering-independent clauses of C18 - first success wins,
+// every other established connection is closed, nothing is left behind, the
+// caller's cancellation is honoured - under schedule exploration: every `go`,
+// channel operation, select and atomic of Dial is a scheduling point and every
+// schedule that deviates at most twice from the default (run-until-blocked, round-robin) scheduler is explored.  Two targets, two workers,
+// attempts that succeed or fail at once, optional cancellation by the caller.
+func verifC18Schedules() {
+	vSchedForks(true)
+	vSchedPoints(2)
+	vDelays(2)
+	res := ResolveResult{Port: 443, Address: []net.IP{{10, 0, 0, 1}, {10, 0, 0, 2}}}
+	outcomes := []int{vInt(0, 1), vInt(0, 1)} // 0 succeed, 1 fail
+	var conns []*vDialConn
+	calls := 0
+	d := &Dialer[*vDialConn]{MaxConcurrency: 2, ConcurrencyDelay: time.Nanosecond, Timeout: time.Hour}
+	d.DialFunc = func(ctx context.Context, network, addr string, c *tls.Config) (*vDialConn, error) {
+		i := calls
+		calls++
+		vStall(5) // an attempt takes time: anything may happen meanwhile
+		if ctx.Err() != nil {
+			return nil, ctx.Err()
+		}
+		if outcomes[i%2] == 1 {
+			return nil, errVTransport
+		}
+		c1 := &vDialConn{addr: addr}
+		conns = append(conns, c1)
+		return c1, nil
+	}
+	ctx, cancel := context.WithCancel(context.WithValue(context.Background(), transportResolverKey, &transportResolver{host: "h.example", result: res}))
+	if vBool() {
+		go cancel()
+	}
+	conn, err := d.Dial(ctx, "tcp", "h.example:443", nil)
+	vAssert((conn != nil) == (err == nil), "a connection or an error")
+	cancel()
+	left := vQuiesce()
+	vAssert(left == 0, "no goroutine is left behind, whatever the schedule")
+	open := 0
+	for _, c1 := range conns {
+		if !c1.closed {
+			open++
+			vAssert(c1 == conn, "every established connection other than the returned one is closed, whatever the schedule")
+		}
+	}
+	vAssert(conn == nil || open == 1, "the returned connection is open")
+	if err != nil && outcomes[0] == 0 && outcomes[1] == 0 && ctx.Err() == nil {
+		vFail("with every attempt succeeding Dial succeeds")
+	}
+	vReach("schedules")
+}
